@@ -144,6 +144,13 @@ fn main() {
                 println!("FORMATTED:\n{f}");
             }
         }
+        "miri-corpus" => {
+            // rv miri-corpus <n> <file>: inputs for the Miri layer, one per line, '\n' and '\\' escaped
+            let n: usize = args[2].parse().unwrap();
+            let lines: Vec<String> = props::c18::miri_corpus(seed_from_env(), n).iter().map(|t| t.replace('\\', "\\\\").replace('\n', "\\n").replace('\r', " ")).collect();
+            std::fs::write(&args[3], lines.join("\n") + "\n").unwrap();
+            println!("{} inputs written to {}", lines.len(), args[3]);
+        }
         "try-stages" => {
             props::c18::install_panic_recorder();
             let text = std::fs::read_to_string(&args[2]).unwrap();
